@@ -169,6 +169,10 @@ func refPropFilter(f caldav.PropFilter, c rComp) tri {
 		res := triTrue
 		if hasRange {
 			t, err := time.Parse("20060102T150405Z", p.Value)
+			if err != nil && p.Params["VALUE"] == "DATE" && f.Start.Location() == time.UTC && f.End.Location() == time.UTC {
+				// RFC 4791 9.9: a DATE value is the start of that day (judged for UTC ranges only: a DATE is floating)
+				t, err = time.Parse("20060102", p.Value)
+			}
 			if err != nil {
 				return triOpen // time-range on a non date-time property
 			}
@@ -938,8 +942,8 @@ func c06Run(r *engine.Run) {
 			}
 			// prop-filter time-range on a DATE-TIME property (DTSTART of each instant event)
 			for ei, ev := range events {
-				if ev.Style != "INSTANT" {
-					continue
+				if ev.Style != "INSTANT" && !(strings.HasPrefix(ev.Style, "DATE") && z == time.UTC) {
+					continue // DATE-TIME starts, and DATE starts (start of that day) against UTC ranges
 				}
 				f := caldav.CompFilter{Name: "VCALENDAR", Comps: []caldav.CompFilter{{Name: "VEVENT", Props: []caldav.PropFilter{{Name: "DTSTART", Start: rg[0], End: rg[1]}}}}}
 				in := ev.obj.Children[0].Instances[0]
